@@ -95,6 +95,7 @@ Section Proofs.
         w_validate (wo_writer o) = None /\ (cr = true -> wo_create o = true /\ old = Some m_empty)
     | CUpdate _ _ _, PSavedC _ _ => True
     | CDelete id0 _, PDel seen _ => seen_ok (apply_id id0) seen w
+    | CSubID _ _, POpen => True
     | _, _ => False
     end.
 
@@ -113,7 +114,7 @@ Section Proofs.
   Lemma trans_world c p w p' w' eff : trans c p w = Some (p', w', eff) -> world_step w w'.
   Proof.
     unfold Lts.trans. intros H.
-    destruct c as [msg o|id0 msg o|id0 o|ro|ro]; destruct p as [|old cr|nv e|nv e|seen n|r]; try discriminate.
+    destruct c as [msg o|id0 msg o|id0 o|ro|ro|id1 ro]; destruct p as [|old cr|nv e|nv e|seen n|r|]; try discriminate.
     - destruct (w_validate (wo_writer o)); inversion H; subst; apply ws_same; reflexivity.
     - destruct (change_fn o msg old); [|inversion H; subst; apply ws_same; reflexivity].
       destruct (om_eqb m_eqb old (v_val (w_v w))); [|inversion H; subst; apply ws_same; reflexivity].
@@ -135,6 +136,8 @@ Section Proofs.
       destruct seen as [[it st]|]; [|discriminate].
       destruct (update_time clock_at o (c_reads (w_c w))) as [t reads]. inversion H; subst.
       eapply ws_delete; reflexivity.
+    - inversion H; subst; apply ws_same; reflexivity.
+    - inversion H; subst; apply ws_same; reflexivity.
     - inversion H; subst; apply ws_same; reflexivity.
     - inversion H; subst; apply ws_same; reflexivity.
   Qed.
@@ -177,7 +180,7 @@ Section Proofs.
     world_step w w' -> stamps_ok w -> sorted (c_items (w_c w)) -> pc_wf c p w -> pc_wf c p w'.
   Proof.
     intros W Hst Hso H.
-    destruct c as [msg o|id0 msg o|id0 o|ro|ro]; destruct p as [|old cr|nv e|nv e|seen n|r]; simpl in *; auto.
+    destruct c as [msg o|id0 msg o|id0 o|ro|ro|id1 ro]; destruct p as [|old cr|nv e|nv e|seen n|r|]; simpl in *; auto.
     eapply world_step_seen; eauto.
   Qed.
 
@@ -194,7 +197,7 @@ Section Proofs.
   Proof.
     intros H Hst Hso Hwf. pose proof (trans_world _ _ _ H) as W.
     unfold Lts.trans in H.
-    destruct c as [msg o|id0 msg o|id0 o|ro|ro]; destruct p as [|old cr|nv e|nv e|seen n|r]; try discriminate; simpl in Hwf.
+    destruct c as [msg o|id0 msg o|id0 o|ro|ro|id1 ro]; destruct p as [|old cr|nv e|nv e|seen n|r|]; try discriminate; simpl in Hwf.
     - destruct (w_validate (wo_writer o)) eqn:V; inversion H; subst; simpl; auto.
     - destruct (change_fn o msg old); [|inversion H; subst; exact I].
       destruct (om_eqb m_eqb old (v_val (w_v w))); [|inversion H; subst; exact I].
@@ -217,6 +220,8 @@ Section Proofs.
       + destruct seen as [[it st]|]; [|discriminate].
         destruct (update_time clock_at o (c_reads (w_c w))) as [t reads]. inversion H; subst. exact I.
       + inversion H; subst. simpl. apply seen_ok_fresh. exact Hst.
+    - inversion H; subst; exact I.
+    - inversion H; subst; exact I.
     - inversion H; subst; exact I.
     - inversion H; subst; exact I.
   Qed.
@@ -329,18 +334,19 @@ Section Proofs.
     | CUpdate id0 msg o => let '(c', r, ev) := upd_ref (snd vc) id0 msg o in ((fst vc, c'), OVal r, [], ev)
     | CDelete id0 o =>
         let '(c', r, e, ev) := spec_c_delete m_eqb clock_at idfun (snd vc) id0 o in ((fst vc, c'), ODel r e, [], ev)
-    | CSubV _ | CSubC _ => (vc, OSub, [], [])
+    | CSubV _ | CSubC _ | CSubID _ _ => (vc, OSub, [], [])
     end.
 
   Lemma spec_call_ev_fst vc c : call_ok c ->
     spec_call vc c = (fst (fst (fst (spec_call_ev vc c))), snd (fst (fst (spec_call_ev vc c)))).
   Proof.
-    intros Hok. destruct c as [msg o|id0 msg o|id0 o|ro|ro]; simpl.
+    intros Hok. destruct c as [msg o|id0 msg o|id0 o|ro|ro|id1 ro]; simpl.
     - rewrite spec_set_eq. destruct (set_ref (fst vc) msg o) as [[v' r] ev]. reflexivity.
     - simpl in Hok. pose proof (spec_update_eq (snd vc) id0 msg o Hok) as E.
       destruct (spec_c_update m_eqb m_empty w_validate w_merge clock_at str_ltb idfun (snd vc) id0 msg o []) as [[[c' r] ev] cb].
       rewrite <- E. reflexivity.
     - destruct (spec_c_delete m_eqb clock_at idfun (snd vc) id0 o) as [[[c' r] e] ev]. reflexivity.
+    - reflexivity.
     - reflexivity.
     - reflexivity.
   Qed.
@@ -370,7 +376,7 @@ Section Proofs.
     end.
   Proof.
     intros Hok Hwf H. unfold Lts.trans in H.
-    destruct c as [msg o|id0 msg o|id0 o|ro|ro]; destruct p as [|old cr|nv e|nv e|seen n|r]; try discriminate; simpl in Hwf.
+    destruct c as [msg o|id0 msg o|id0 o|ro|ro|id1 ro]; destruct p as [|old cr|nv e|nv e|seen n|r|]; try discriminate; simpl in Hwf.
     - (* Set, start *)
       destruct (w_validate (wo_writer o)) eqn:V; inversion H; subst; clear H; simpl.
       + unfold set_ref. rewrite V. reflexivity.
@@ -455,6 +461,8 @@ Section Proofs.
         destruct (del_check o (lookup_st (apply_id id0) w')) as [r|] eqn:D2; [|split; reflexivity].
         destruct (del_check_form _ _ D2) as (m & e & ->).
         rewrite (del_check_spec _ _ _ D2). reflexivity.
+    - inversion H; subst; clear H. simpl. split; reflexivity.
+    - inversion H; subst; clear H. simpl. split; reflexivity.
     - inversion H; subst; clear H. simpl. split; reflexivity.
     - inversion H; subst; clear H. simpl. split; reflexivity.
   Qed.
@@ -849,7 +857,7 @@ Section Proofs.
       induction order as [|t r IH]; intros vc vc' os Hv H; simpl in *.
       - inversion H. split; [lia|constructor].
       - destruct (nth_error prog t) as [c|] eqn:P; [|exfalso; apply (Hv t); auto].
-        pose proof (all_delta _ P) as D. destruct c as [msg o|?|?|?|?]; simpl in D; try contradiction.
+        pose proof (all_delta _ P) as D. destruct c as [msg o|?|?|?|?|? ?]; simpl in D; try contradiction.
         destruct D as (V & E & C & Hm).
         destruct (spec_call vc (CSet msg o)) as [vc1 o1] eqn:S1.
         destruct (replay vc1 r) as [vc2 os2] eqn:R. inversion H. subst.
@@ -881,7 +889,7 @@ Section Proofs.
   Lemma spec_keeps_present id vc c :
     not_delete c -> present id vc -> present id (fst (fst (fst (spec_call_ev vc c)))).
   Proof.
-    intros ND Hp. destruct c as [msg o|id0 msg o|id0 o|ro|ro]; simpl in *; try contradiction; try exact Hp.
+    intros ND Hp. destruct c as [msg o|id0 msg o|id0 o|ro|ro|id1 ro]; simpl in *; try contradiction; try exact Hp.
     - destruct (set_ref (fst vc) msg o) as [[v' r] ev]. exact Hp.
     - unfold upd_ref, present in *.
       destruct (w_validate (wo_writer o)); [exact Hp|].
@@ -896,6 +904,13 @@ Section Proofs.
       + destruct (wo_create o); [|exact Hp].
         destruct (change_fn o msg (Some m_empty)); [|exact Hp].
         destruct (update_time clock_at o (c_reads (snd vc))). apply G.
+  Qed.
+
+  Lemma firstn_S_nth {A} (l : list A) k x : nth_error l k = Some x -> firstn (S k) l = firstn k l ++ [x].
+  Proof.
+    revert k. induction l as [|y r IH]; intros k H; destruct k; simpl in *; try discriminate.
+    - inversion H. reflexivity.
+    - rewrite (IH _ H). reflexivity.
   Qed.
 
   Hypothesis no_deletes : forall t c, nth_error prog t = Some c -> not_delete c.
@@ -915,12 +930,6 @@ Section Proofs.
     - destruct L as (-> & _). exact Hp.
   Qed.
 
-  Lemma firstn_S_nth {A} (l : list A) k x : nth_error l k = Some x -> firstn (S k) l = firstn k l ++ [x].
-  Proof.
-    revert k. induction l as [|y r IH]; intros k H; destruct k; simpl in *; try discriminate.
-    - inversion H. reflexivity.
-    - rewrite (IH _ H). reflexivity.
-  Qed.
 
   Lemma present_mono sched id i j : (i <= j)%nat -> present id (mem_at sched i) -> present id (mem_at sched j).
   Proof.
@@ -942,6 +951,113 @@ Section Proofs.
     - unfold upd_ref in U. destruct (w_validate (wo_writer o)); [discriminate|].
       destruct (lookup (apply_id id0) (c_items (snd vc))); [|reflexivity]. rewrite EA in U. discriminate.
     - unfold present. simpl. destruct (lookup (apply_id id0) (c_items c')); [discriminate|discriminate].
+  Qed.
+
+  (* ---------- with Deletes: between two successful Adds of one id a Delete of it is linearized ---------- *)
+  Lemma step_wit_incl t s e : In e (st_wit s) -> In e (st_wit (step t s)).
+  Proof.
+    intros H. unfold Lts.step.
+    destruct (nth_error prog t) as [c|]; [|exact H].
+    destruct (nth_error (st_pcs s) t) as [p|]; [|exact H].
+    destruct (trans c p (st_w s)) as [[[p' w'] eff]|]; [|exact H].
+    simpl. destruct (predicted c p), (predicted c p'); try exact H. apply in_or_app. left. exact H.
+  Qed.
+
+  Lemma run_wit_incl suf : forall s e, In e (st_wit s) -> In e (st_wit (run suf s)).
+  Proof.
+    induction suf as [|t r IH]; intros s e H; simpl; [exact H|]. apply IH. apply step_wit_incl. exact H.
+  Qed.
+
+  Lemma prefix_wit_incl sched n e : In e (st_wit (run (firstn n sched) s0)) -> In e (st_wit (run sched s0)).
+  Proof.
+    intros H. rewrite <- (firstn_skipn n sched) at 1. unfold Lts.run. rewrite fold_left_app.
+    apply (run_wit_incl (skipn n sched)). exact H.
+  Qed.
+
+  (* the only step that makes a present id absent is the linearization of a successful Delete of it *)
+  Lemma step_removes id pre s t :
+    Inv pre s -> present id (mem (st_w s)) -> ~ present id (mem (st_w (step t s))) ->
+    exists id0 o b, nth_error prog t = Some (CDelete id0 o) /\ apply_id id0 = id /\
+                    In (t, ODel (Some b) None, List.length pre) (st_wit (step t s)).
+  Proof.
+    intros I Hp Hn. unfold Lts.step in *.
+    destruct (nth_error prog t) as [c|] eqn:P; [|contradiction].
+    destruct (nth_error (st_pcs s) t) as [p|] eqn:Q; [|contradiction].
+    destruct (trans c p (st_w s)) as [[[p' w'] eff]|] eqn:T; [|contradiction].
+    simpl in *. destruct (i_local I _ P Q) as [Hwf _].
+    pose proof (@trans_lin _ _ _ _ _ _ (prog_ok _ P) Hwf T) as L.
+    destruct (predicted c p) as [r0|], (predicted c p') as [r|].
+    - destruct L as (_ & E & _). rewrite E in Hn. contradiction.
+    - contradiction.
+    - destruct c as [msg o|id0 msg o|id0 o|ro|ro|id1 ro].
+      + exfalso. pose proof (@spec_keeps_present id (mem (st_w s)) (CSet msg o) Logic.I Hp) as K. rewrite L in K. contradiction.
+      + exfalso. pose proof (@spec_keeps_present id (mem (st_w s)) (CUpdate id0 msg o) Logic.I Hp) as K. rewrite L in K. contradiction.
+      + simpl in L.
+        destruct (spec_c_delete m_eqb clock_at idfun (w_c (st_w s)) id0 o) as [[[c1 r1] e1] ev1] eqn:SD.
+        pose proof (f_equal (fun x => fst (fst (fst x))) L) as E1. simpl in E1.
+        pose proof (f_equal (fun x => snd (fst (fst x))) L) as E2. simpl in E2.
+        apply delete_outcomes in SD. simpl in SD.
+        destruct SD as [(_ & -> & _)|[(it & code & _ & _ & -> & _)|(it & tm & Lk & -> & -> & Ei & _)]].
+        * exfalso. apply Hn. rewrite <- E1. exact Hp.
+        * exfalso. apply Hn. rewrite <- E1. exact Hp.
+        * exists id0, o, (it_body it). split; [reflexivity|]. split.
+          -- destruct (String.eqb_spec id (apply_id id0)) as [->|Hne]; [reflexivity|]. exfalso. apply Hn.
+             unfold present. rewrite <- E1. simpl. rewrite Ei. rewrite lookup_remove_other by exact Hne. exact Hp.
+          -- apply in_or_app. right. left. rewrite (i_k I), <- E2. reflexivity.
+      + exfalso. pose proof (f_equal (fun x => fst (fst (fst x))) L) as E1. simpl in E1. rewrite <- E1 in Hn. apply Hn. exact Hp.
+      + exfalso. pose proof (f_equal (fun x => fst (fst (fst x))) L) as E1. simpl in E1. rewrite <- E1 in Hn. apply Hn. exact Hp.
+      + exfalso. pose proof (f_equal (fun x => fst (fst (fst x))) L) as E1. simpl in E1. rewrite <- E1 in Hn. apply Hn. exact Hp.
+    - destruct L as (E & _). rewrite E in Hn. contradiction.
+  Qed.
+
+  Lemma present_dec id vc : present id vc \/ ~ present id vc.
+  Proof. unfold present. destruct (lookup id (c_items (snd vc))); [left; discriminate|right; intros C; apply C; reflexivity]. Qed.
+
+  Lemma present_lost sched id i j :
+    (i <= j)%nat -> present id (mem_at sched i) -> ~ present id (mem_at sched j) ->
+    exists m t3 id3 o3 b, (i <= m < j)%nat /\ nth_error prog t3 = Some (CDelete id3 o3) /\ apply_id id3 = id /\
+                          In (t3, ODel (Some b) None, m) (st_wit (run sched s0)).
+  Proof.
+    induction 1 as [|j Hle IH]; intros Hp Hn; [contradiction|].
+    destruct (present_dec id (mem_at sched j)) as [Hj|Hj].
+    - unfold mem_at in *. destruct (nth_error sched j) as [x|] eqn:N.
+      + rewrite (firstn_S_nth _ _ N), run_snoc in Hn.
+        destruct (@step_removes id _ _ x (inv_run (firstn j sched)) Hj Hn) as (id3 & o3 & b & P & E & Hin).
+        assert (Lj : List.length (firstn j sched) = j).
+        { apply firstn_length_le. apply Nat.lt_le_incl. apply nth_error_Some. rewrite N. discriminate. }
+        rewrite Lj in Hin. exists j, x, id3, o3, b. split; [lia|]. split; [exact P|]. split; [exact E|].
+        apply (prefix_wit_incl sched (S j)). rewrite (firstn_S_nth _ _ N), run_snoc. exact Hin.
+      + apply nth_error_None in N. rewrite !firstn_all2 in * by lia. contradiction.
+    - destruct (IH Hp Hj) as (m & t3 & id3 & o3 & b & Hm & R). exists m, t3, id3, o3, b. split; [lia|exact R].
+  Qed.
+
+  (* both Adds are in the witness; in between, a successful Delete of the id is *)
+  Theorem adds_separated_by_delete sched t1 t2 id1 id2 msg1 msg2 o1 o2 nv1 nv2 k1 k2 :
+    nth_error prog t1 = Some (CUpdate id1 msg1 o1) -> nth_error prog t2 = Some (CUpdate id2 msg2 o2) ->
+    apply_id id1 = apply_id id2 -> wo_expect_absent o2 = true ->
+    In (t1, OVal (inl nv1), k1) (st_wit (run sched s0)) -> In (t2, OVal (inl nv2), k2) (st_wit (run sched s0)) ->
+    (k1 < k2)%nat ->
+    exists k3 t3 id3 o3 b, (k1 < k3 < k2)%nat /\ nth_error prog t3 = Some (CDelete id3 o3) /\
+                           apply_id id3 = apply_id id1 /\ In (t3, ODel (Some b) None, k3) (st_wit (run sched s0)).
+  Proof.
+    intros P1 P2 Eid E2 W1 W2 Hlt.
+    destruct (linearization_points _ _ W1) as (c1 & P1' & R1 & S1).
+    destruct (linearization_points _ _ W2) as (c2 & P2' & R2 & S2).
+    unfold Lts.wit_tid, Lts.wit_k, Lts.wit_out in P1', R1, S1, P2', R2, S2.
+    simpl fst in P1', R1, S1, P2', R2, S2. simpl snd in P1', R1, S1, P2', R2, S2.
+    rewrite P1 in P1'. inversion P1'. subst c1. rewrite P2 in P2'. inversion P2'. subst c2.
+    destruct (@add_success_absent _ _ _ _ _ _ E2 (prog_ok _ P2) S2) as [A2 _].
+    assert (B1 : present (apply_id id1) (mem_at sched (S k1))).
+    { remember (mem_at sched k1) as mk. remember (mem_at sched (S k1)) as mk'.
+      rewrite (@spec_call_ev_fst _ _ (prog_ok _ P1)) in S1. simpl in S1.
+      destruct (upd_ref (snd mk) id1 msg1 o1) as [[c' r] ev] eqn:U. simpl in S1.
+      assert (E : (fst mk, c') = mk' /\ r = inl nv1) by (inversion S1; auto).
+      destruct E as [E ->]. pose proof (upd_ref_ok _ _ _ _ U) as [_ V]. unfold present. rewrite <- E. simpl.
+      destruct (lookup (apply_id id1) (c_items c')); [discriminate|discriminate V]. }
+    assert (N2 : ~ present (apply_id id1) (mem_at sched k2)).
+    { unfold present. rewrite Eid, A2. intros C. apply C. reflexivity. }
+    destruct (@present_lost sched (apply_id id1) (S k1) k2 Hlt B1 N2) as (m & t3 & id3 & o3 & b & Hm & R).
+    exists m, t3, id3, o3, b. split; [lia|exact R].
   Qed.
 
   Theorem adds_at_most_one sched t1 t2 id1 id2 msg1 msg2 o1 o2 nv1 nv2 :
